@@ -9,24 +9,47 @@ from harness import common as C
 
 THEOREMS = 'Properties/C01.v'
 CLAIM = dict(
-    text='Coq theorems, over every commutative ring (hence Z: the bit-for-bit clause) and for every d>=2, mode size>=1 '
-         'and rank profile: export (full) at the C-order position = chained product; get_many = map get; pointwise laws '
-         'of add / sub / mul / mul-by-number / outer / const; sum, weighted mean and scalar product as sums over all '
-         'multi-indices; first interface = entry; element gradient (entry is linear in core k with coefficients left x '
-         'right interface); soundness of every finite expression tree over add, sub, mul, outer, number operands, copy '
-         '(induction on the tree). Model Model/ActOne.v + Model/Interface.v + Model/ActOneR.v mirrors act_one / act_two / '
-         'act_many / transformation.full / props / data; tied to /repo by exact correspondence on integer tensors (Z '
-         'instance) and within a rigorous rounding bound on random doubles (PrimFloat instance of the same terms). '
-         'norm / accuracy / accuracy_on_data / erank / normalised interfaces are modelled and executed (float instance) '
-         'but their Reals statements are not proved here (partial).',
-    note='Trusted: Coq kernel; vm_compute + PrimFloat primitives for case evaluation only; the hand-written model '
-         '(validated by the correspondence on every run); numpy semantics of einsum/concatenate/reshape as re-expressed '
-         'in the model. IEEE rounding is modelled, not verified: theorems are about exact ring arithmetic.',
-    technique='Coq proof (ring-generic induction over the core chain and over expression trees) + exact/rounding-bounded '
-              'model-implementation correspondence')
-TRUSTED = ['Coq 8.16.1 kernel', 'vm_compute and PrimFloat primitives (case evaluation only, never under a theorem)',
+    text='Coq theorems (Properties/C01.v). (A) Over every commutative ring (hence Z: the bit-for-bit clause), every d>=2, '
+         'mode size>=1 and rank profile: export (full) at the C-order position = chained product (C01_full_get/_length); '
+         'get_many = map get; pointwise laws of add / sub / mul / mul-by-number / outer / const (C01_get_*); sum, weighted mean '
+         'and scalar product as sums over all multi-indices (C01_sum_spec, C01_mean_spec, C01_mul_scalar_spec, C01_mul_scalar_x); '
+         'first interface = entry, element gradient (C01_interface_value, C01_grad_spec); the general interface function '
+         'with an index and norm=None is the list of partial products, entry by entry, for both sweeps '
+         '(C01_interface_none_right/_left, C01_interface_right_entry/_left_entry); mean with default weights is the uniform '
+         'mean (C01_mean_default); reported shape / ranks / size of a well-formed tensor incl. size = sum_k r_k n_k r_{k+1} '
+         '(C01_props, C01_props_spec); soundness of every finite expression tree over add, sub, mul, outer, number operands, '
+         'copy (C01_expr_sound, C01_expr_sound_Z). (B) At the Coq reals (carrier OR01, same model terms): norm = sqrt of the '
+         'sum over all multi-indices of entry^2 (C01_norm_spec); accuracy on its plain branch = ||Y1-Y2||_F / ||Y2||_F as dense '
+         'Frobenius norms when ||Y2||<>0, and it is 0 iff the tensors agree everywhere (C01_accuracy_spec, '
+         'C01_accuracy_zero_iff); accuracy_on_data = -1 when all reference values are 0, else ||get_many(Y,I)-y||_2/||y||_2 '
+         '(C01_accuracy_on_data_spec); erank = r_1 for d=2 and for d>=3 with mode sizes>=1 THE non-negative root of '
+         'a x^2 + b x = size (a, b as in the code: C01_erank_coefficients), hence r for a tensor whose interior ranks all '
+         'equal r (C01_erank_d2, C01_erank_spec, C01_erank_uniform); uniform mean = (sum of all entries)/(number of entries '
+         'of the dense array) (C01_mean_uniform_spec, C01_mean_count_pos); interface with norm=natural, any P / i, both '
+         'sweeps: vector k = un-normalised vector k divided by the product of the mode sizes swept so far, a positive factor '
+         '(C01_interface_natural_right/_left/_factor_pos); norm=linalg: wherever the un-normalised vector u_k is non-zero '
+         'the result is u_k/||u_k||_2, a positive multiple of the true partial product with Euclidean norm 1; the boundary '
+         'vector is [1] (C01_interface_linalg_right/_left, C01_interface_boundary). Non-vacuity: C01_example, '
+         'C01R_example_*. NOT proved (modelled elsewhere or only executed): the saturation branches of act_two.accuracy '
+         '(returns 0 / 1e299 / -1 through the stabilised exponents; that arithmetic is property C16) - Model/ActOneR.accuracy '
+         'is the plain branch only; linalg interface where some u_k = 0 (the code divides 0 by 0); norm(use_stab=True); '
+         'IEEE rounding (theorems are about exact arithmetic; the rounding clause is validated by the float stream within '
+         'an explicit bound). Model Model/ActOne.v + Model/Interface.v + Model/ActOneR.v mirrors act_one / act_two / act_many '
+         '/ transformation.full / props / data; tied to /repo by exact correspondence on integer tensors (Z instance), '
+         'within a rigorous rounding bound on random doubles (PrimFloat instance), and by the reals-exact stream: Z / Qc '
+         'instances of norm, accuracy, accuracy_on_data, erank, uniform mean and the normalised interfaces on inputs where '
+         'sqrt and division are exact, compared with the correctly rounded exact value.',
+    note='Trusted: Coq kernel; standard-library axioms of the Reals under the (B) theorems (listed by Print Assumptions); '
+         'vm_compute + PrimFloat primitives for case evaluation only; the hand-written model (validated by the '
+         'correspondence on every run); numpy semantics of einsum/concatenate/reshape as re-expressed in the model. IEEE '
+         'rounding is modelled, not verified: theorems are about exact ring / real arithmetic.',
+    technique='Coq proof (ring-generic induction over the core chain and over expression trees; Coq Reals with lra/nra/field '
+              'for sqrt, division, order) + exact / rounding-bounded model-implementation correspondence')
+TRUSTED = ['Coq 8.16.1 kernel', 'Coq standard-library Reals axioms (sig_forall_dec, sig_not_dec, functional_extensionality_dep) '
+           'under the C01R theorems only',
+           'vm_compute and PrimFloat primitives (case evaluation only, never under a theorem)',
            'hand-written model Model/ActOne.v, Model/Interface.v, Model/ActOneR.v (tied by correspondence)',
-           'numpy/einsum/reshape semantics as re-expressed in the model',
+           'numpy/einsum/reshape/np.linalg.norm/np.sqrt semantics as re-expressed in the model',
            'harness/props/C01.py (generators, comparison)']
 TIME_LIMIT = {'quick': 1200, 'thorough': 5400}
 
@@ -580,7 +603,7 @@ def reals_exact_stream(R, ctx, tn):
         else:                         # linalg interface: each vector = u_k / ||u_k||, u_k from the exact model (norm=None)
             _, r, ltr = how
             u = [int(x) for x in fr]
-            lens = list(r) if not ltr else list(r)
+            lens = list(r)            # vector k of either sweep has length r_k
             ok = len(u) == len(impl) == sum(lens)
             pos = 0
             for k, L in enumerate(lens):
@@ -593,8 +616,7 @@ def reals_exact_stream(R, ctx, tn):
                 if boundary:
                     ok = vk == [1.0]
                 elif nk == 0:
-                    ok = True         # 0/0 in the code: outside every claim; later vectors are NaN as well
-                    break
+                    continue          # 0/0 in the code: outside every claim (C01_interface_linalg_* assume u_k <> 0)
                 else:
                     ok = all(math.isfinite(x) and abs(x - e / nk) <= 1e-12 for x, e in zip(vk, uk))
         if not ok:
